@@ -145,3 +145,25 @@ pub fn determinism(verif_dir: &str, props: &[&'static str]) -> Result<(), String
     }
     Ok(())
 }
+
+/// The child-process isolation must turn an abort into an attributed VIOLATION.
+pub fn isolation(verif_dir: &str) -> Result<(), String> {
+    let exe = std::env::current_exe().map_err(|e| e.to_string())?;
+    let scratch = format!("{}/sim/target/selftest-evidence", verif_dir);
+    let _ = std::fs::create_dir_all(&scratch);
+    let out = std::process::Command::new(exe)
+        .arg("C08")
+        .arg("quick")
+        .env("VERIF_DIR", &scratch)
+        .env("BPSIM_SELFTEST_SCALE", "200")
+        .env("BPSIM_TEST_ABORT", "3")
+        .env_remove("BPSIM_CHILD")
+        .output()
+        .map_err(|e| e.to_string())?;
+    let so = String::from_utf8_lossy(&out.stdout);
+    if out.status.code() != Some(1) || !so.contains("VIOLATION property=C08") {
+        return Err(format!("isolation selftest: exit {:?}, stdout {}", out.status.code(), so));
+    }
+    println!("selftest isolation: an abort inside a case is reported as a VIOLATION with the in-flight case as replay file");
+    Ok(())
+}
